@@ -13,7 +13,27 @@ SEEDED = VERIF / "seeded"
 EXTRA = {"C02-m2": ["C02", "C10"], "C06-m1": ["C06", "C07"], "C07-m2": ["C07", "C06"], "C17-m3": ["C17", "C02"]}
 
 
+def report():
+    """write seeded/MATRIX.md from the results recorded in the meta.json files (no runs)"""
+    rows = []
+    for d in sorted(p for p in SEEDED.iterdir() if p.is_dir()):
+        meta = json.loads((d / "meta.json").read_text())
+        res = meta.get("results", {})
+        rows.append((d.name, ", ".join(f"{c}: {'DETECTED' if v.get('exit') == 1 else 'missed (exit %s)' % v.get('exit')}" for c, v in sorted(res.items())) or "not run",
+                     meta.get("summary", "")[:160].replace("\n", " ").replace("|", "/")))
+    out = ["# Seeded changes vs checks (quick tier, latest recorded run of each)", "",
+           "Each change compiles, passes the repository's 112 tests and breaks the named property (demo.py).",
+           "m = first round of sub-agents, n = second round (asked for subtler changes).", "",
+           "| change | result | what it does |", "|---|---|---|"]
+    out += [f"| {a} | {b} | {c} |" for a, b, c in rows]
+    (SEEDED / "MATRIX.md").write_text("\n".join(out) + "\n")
+    print(f"{len(rows)} changes; detected by the check of their own property: "
+          f"{sum(1 for a, b, c in rows if (a.split('-')[0] + ': DETECTED') in b)}")
+
+
 def main():
+    if sys.argv[1:] == ["--report"]:
+        return report()
     ids = sys.argv[1:] or sorted(p.name for p in SEEDED.iterdir() if p.is_dir())
     rows = []
     for sid in ids:
@@ -36,8 +56,8 @@ def main():
            "Each change compiles, passes the repository's 112 tests and breaks the named property (demo.py).", "",
            "| change | result | what it does |", "|---|---|---|"]
     out += [f"| {a} | {b} | {c} |" for a, b, c in rows]
-    (SEEDED / "MATRIX.md").write_text("\n".join(out) + "\n")
     subprocess.run(["git", "-C", "/repo", "checkout", "--", "."])
+    report()
 
 
 if __name__ == "__main__":
